@@ -15,10 +15,18 @@ PROVED, for every V, E, -u and every shuffle:
  * `convert_directed` / `convert_undirected_*`: `--convert` keeps the list; with -u it drops
    exactly the edges whose reverse was already kept.
 
-NOT proved: `colouring_iff` (the `--colors k` output has a clique covering every input
-vertex exactly once iff the input is k-colourable) — decided by brute force on every
-generated case by the correspondence run.  The randomness itself (`rand::shuffle` returns a
-permutation) is an assumption about the `rand` crate.
+ * `colouring_iff` (`--colors k`): the output graph (`aug_adj`: copies of different vertices are
+   joined unless they have the same colour and the vertices are adjacent in either direction)
+   has a clique covering every input vertex exactly when the input graph has a proper colouring
+   with k colours; `isColouring_iff` ties `Colourable` to the test the correspondence run's
+   brute-force oracle applies.  Self-loops in the input constrain nothing (the generator skips
+   copies of the same vertex).
+
+Assumption, not provable here: `rand::seq::SliceRandom::shuffle` returns a permutation of the
+candidate list (the theorems quantify over every shuffled list; the correspondence run checks
+each real output is a duplicate-free sublist of the candidates).  The order and orientation of
+the `--colors` output follow an `FxHashMap` iteration order; the model fixes a canonical
+orientation and the theorems and the comparison are orientation-free.
 -/
 import Rsbdd.Model.Gen.Graph
 
@@ -221,5 +229,189 @@ example : candidates 3 true = [(0, 1), (0, 2), (1, 2)] := by decide
 example : candidates 3 false = [(0, 1), (0, 2), (1, 0), (1, 2), (2, 0), (2, 1)] := by decide
 example : generate [(0, 1), (1, 2), (0, 2)] 4 = none := by decide
 example : readGraph [("a", "b"), ("b", "a"), ("a", "b")] true = [("a", "b"), ("a", "b")] := by decide
+
+
+/-! ### `--colors k` -/
+
+theorem mem_dedupStr (xs : List String) (x : String) : x ∈ dedupStr xs ↔ x ∈ xs := by
+  unfold dedupStr
+  have key : ∀ (l acc : List String),
+      x ∈ l.foldl (fun acc x => if acc.contains x then acc else acc ++ [x]) acc ↔ x ∈ acc ∨ x ∈ l := by
+    intro l
+    induction l with
+    | nil => intro acc; simp
+    | cons y ys ih =>
+      intro acc
+      rw [List.foldl_cons, ih]
+      by_cases hc : acc.contains y = true
+      · simp only [hc, if_true, List.mem_cons]
+        have : y ∈ acc := by simpa using hc
+        constructor
+        · rintro (h | h); exact Or.inl h; exact Or.inr (Or.inr h)
+        · rintro (h | rfl | h)
+          · exact Or.inl h
+          · exact Or.inl this
+          · exact Or.inr h
+      · simp only [hc, Bool.false_eq_true, if_false, List.mem_append, List.mem_cons, List.not_mem_nil, or_false]
+        constructor
+        · rintro ((h | rfl) | h)
+          · exact Or.inl h
+          · exact Or.inr (Or.inl rfl)
+          · exact Or.inr (Or.inr h)
+        · rintro (h | rfl | h)
+          · exact Or.inl (Or.inl h)
+          · exact Or.inl (Or.inr rfl)
+          · exact Or.inr h
+  simpa using key xs []
+
+/-- the vertices of the input graph: the end-points of its edges -/
+def verts (edges : List (String × String)) : List String := dedupStr (edges.flatMap (fun e => [e.1, e.2]))
+
+theorem mem_verts (edges : List (String × String)) (v : String) :
+    v ∈ verts edges ↔ ∃ e ∈ edges, v = e.1 ∨ v = e.2 := by
+  simp [verts, mem_dedupStr, List.mem_flatMap]
+
+/-- adjacency in the input graph: an edge in either direction -/
+def GAdj (edges : List (String × String)) (v w : String) : Prop := (v, w) ∈ edges ∨ (w, v) ∈ edges
+
+/-- the edges of the `--colors k` output, either orientation: copies of different vertices,
+unless they have the same colour and the vertices are adjacent -/
+theorem aug_adj (edges : List (String × String)) (k : Nat) (a b : String × Nat) :
+    ((a, b) ∈ augmentColors edges k ∨ (b, a) ∈ augmentColors edges k) ↔
+      (a.1 ∈ verts edges ∧ a.2 < k) ∧ (b.1 ∈ verts edges ∧ b.2 < k) ∧ a.1 ≠ b.1 ∧
+      (a.2 ≠ b.2 ∨ ¬ GAdj edges a.1 b.1) := by
+  have hcop : ∀ x : String × Nat,
+      x ∈ (verts edges).flatMap (fun v => (List.range k).map (fun c => (v, c))) ↔ x.1 ∈ verts edges ∧ x.2 < k := by
+    intro x
+    simp only [List.mem_flatMap, List.mem_map, List.mem_range]
+    constructor
+    · rintro ⟨v, hv, c, hc, rfl⟩; exact ⟨hv, hc⟩
+    · rintro ⟨hv, hc⟩; exact ⟨x.1, hv, x.2, hc, rfl⟩
+  have hmem : ∀ x y : String × Nat, (x, y) ∈ augmentColors edges k ↔
+      (x.1 ∈ verts edges ∧ x.2 < k) ∧ (y.1 ∈ verts edges ∧ y.2 < k) ∧
+      (x.1 ≠ y.1 ∧ (x.1 < y.1 ∨ (x.1 = y.1 ∧ x.2 < y.2)) ∧
+        (x.2 ≠ y.2 ∨ (!(edges.contains (x.1, y.1)) && !(edges.contains (y.1, x.1))) = true)) := by
+    intro x y
+    unfold augmentColors
+    rw [List.mem_flatMap]
+    simp only [List.mem_filterMap]
+    constructor
+    · rintro ⟨a', ha', b', hb', h⟩
+      split at h
+      · rename_i hc
+        cases h
+        exact ⟨(hcop _).mp (by simpa [verts] using ha'), (hcop _).mp (by simpa [verts] using hb'), hc⟩
+      · cases h
+    · rintro ⟨hx, hy, hc⟩
+      exact ⟨x, by simpa [verts] using (hcop _).mpr hx, y, by simpa [verts] using (hcop _).mpr hy, by rw [if_pos hc]⟩
+  have hnon : ∀ v w : String, ((!(edges.contains (v, w)) && !(edges.contains (w, v))) = true) ↔ ¬ GAdj edges v w := by
+    intro v w; simp [GAdj, not_or]
+  rw [hmem, hmem]
+  constructor
+  · rintro (⟨ha, hb, hne, _, hc⟩ | ⟨hb, ha, hne, _, hc⟩)
+    · exact ⟨ha, hb, hne, hc.imp id (hnon _ _).mp⟩
+    · refine ⟨ha, hb, fun e => hne e.symm, ?_⟩
+      rcases hc with hc | hc
+      · exact Or.inl (fun e => hc e.symm)
+      · right; intro hg; exact (hnon _ _).mp hc (Or.symm hg)
+  · rintro ⟨ha, hb, hne, hc⟩
+    rcases String.le_total a.1 b.1 with hle | hle
+    · left
+      refine ⟨ha, hb, hne, Or.inl ?_, hc.imp id (hnon _ _).mpr⟩
+      exact String.not_le.mp (fun h' => hne (String.le_antisymm hle h'))
+    · right
+      refine ⟨hb, ha, fun e => hne e.symm, Or.inl ?_, ?_⟩
+      · exact String.not_le.mp (fun h' => hne (String.le_antisymm h' hle))
+      · rcases hc with hc | hc
+        · exact Or.inl (fun e => hc e.symm)
+        · right; exact (hnon _ _).mpr (fun hg => hc (Or.symm hg))
+
+/-- the input graph has a proper colouring with colours `0 … k-1` (a self-loop `a,a` in the
+edge list constrains nothing: the generator skips copies of the same vertex) -/
+def Colourable (edges : List (String × String)) (k : Nat) : Prop :=
+  ∃ col : String → Nat, (∀ v ∈ verts edges, col v < k) ∧ ∀ e ∈ edges, e.1 ≠ e.2 → col e.1 ≠ col e.2
+
+/-- a set of vertices of the output graph that is a clique and contains a copy of every input vertex -/
+def CoverClique (edges : List (String × String)) (k : Nat) (S : List (String × Nat)) : Prop :=
+  (∀ x ∈ S, x.1 ∈ verts edges ∧ x.2 < k) ∧
+  (∀ v ∈ verts edges, ∃ c, (v, c) ∈ S) ∧
+  (∀ x ∈ S, ∀ y ∈ S, x ≠ y → (x, y) ∈ augmentColors edges k ∨ (y, x) ∈ augmentColors edges k)
+
+/-- C18, `--colors k`: the output graph has a clique covering every input vertex exactly when the
+input graph is k-colourable -/
+theorem colouring_iff (edges : List (String × String)) (k : Nat) :
+    (∃ S, CoverClique edges k S) ↔ Colourable edges k := by
+  constructor
+  · rintro ⟨S, hsub, hcov, hcl⟩
+    let col : String → Nat := fun v => match S.find? (fun x => x.1 == v) with
+      | some x => x.2
+      | none => 0
+    have hcol : ∀ v ∈ verts edges, (v, col v) ∈ S := by
+      intro v hv
+      obtain ⟨c, hc⟩ := hcov v hv
+      cases hf : S.find? (fun x => x.1 == v) with
+      | none =>
+        have := List.find?_eq_none.mp hf (v, c) hc
+        simp at this
+      | some x =>
+        have h1 := List.find?_some hf
+        have h2 := List.mem_of_find?_eq_some hf
+        simp only [beq_iff_eq] at h1
+        have : col v = x.2 := by simp only [col, hf]
+        rw [this, ← h1]; exact h2
+    refine ⟨col, fun v hv => (hsub _ (hcol v hv)).2, ?_⟩
+    intro e he hl
+    have h1 : e.1 ∈ verts edges := (mem_verts edges _).mpr ⟨e, he, Or.inl rfl⟩
+    have h2 : e.2 ∈ verts edges := (mem_verts edges _).mpr ⟨e, he, Or.inr rfl⟩
+    have hne : (e.1, col e.1) ≠ (e.2, col e.2) := fun h => hl (congrArg Prod.fst h)
+    have := (aug_adj edges k _ _).mp (hcl _ (hcol _ h1) _ (hcol _ h2) hne)
+    rcases this.2.2.2 with h | h
+    · exact h
+    · exact absurd (Or.inl (by simpa using he)) h
+  · rintro ⟨col, hlt, hproper⟩
+    refine ⟨(verts edges).map (fun v => (v, col v)), ?_, ?_, ?_⟩
+    · intro x hx
+      obtain ⟨v, hv, rfl⟩ := List.mem_map.mp hx
+      exact ⟨hv, hlt v hv⟩
+    · intro v hv
+      exact ⟨col v, List.mem_map.mpr ⟨v, hv, rfl⟩⟩
+    · intro x hx y hy hne
+      obtain ⟨v, hv, rfl⟩ := List.mem_map.mp hx
+      obtain ⟨w, hw, rfl⟩ := List.mem_map.mp hy
+      have hvw : v ≠ w := fun e => hne (by rw [e])
+      apply (aug_adj edges k _ _).mpr
+      refine ⟨⟨hv, hlt v hv⟩, ⟨hw, hlt w hw⟩, hvw, ?_⟩
+      by_cases hc : col v = col w
+      · right
+        rintro (hg | hg)
+        · exact hproper _ hg hvw hc
+        · exact hproper _ hg (fun e => hvw e.symm) hc.symm
+      · exact Or.inl hc
+
+/-- `Colourable` is what the executable oracle of the correspondence run tests for a given colouring -/
+theorem isColouring_iff (edges : List (String × String)) (col : String → Nat) (k : Nat) :
+    ((verts edges).all (fun v => col v < k) && edges.all (fun e => e.1 == e.2 || col e.1 != col e.2)) = true ↔
+      (∀ v ∈ verts edges, col v < k) ∧ ∀ e ∈ edges, e.1 ≠ e.2 → col e.1 ≠ col e.2 := by
+  simp only [Bool.and_eq_true, List.all_eq_true, decide_eq_true_eq, Bool.or_eq_true, beq_iff_eq, bne_iff_ne]
+  constructor
+  · rintro ⟨h1, h2⟩
+    exact ⟨h1, fun e he hne => (h2 e he).resolve_left hne⟩
+  · rintro ⟨h1, h2⟩
+    refine ⟨h1, fun e he => ?_⟩
+    by_cases h : e.1 = e.2
+    · exact Or.inl h
+    · exact Or.inr (h2 e he h)
+
+-- non-vacuity: a single edge is 2-colourable and not 1-colourable
+example : Colourable [("a", "b")] 2 := by
+  refine ⟨fun v => if v = "a" then 0 else 1, ?_, ?_⟩
+  · intro v _; dsimp only; split <;> omega
+  · intro e he _; simp at he; subst he; decide
+example : ¬ Colourable [("a", "b")] 1 := by
+  rintro ⟨col, h1, h2⟩
+  have ha := h1 "a" (by decide)
+  have hb := h1 "b" (by decide)
+  have := h2 ("a", "b") (by simp) (by decide)
+  simp at this; omega
 
 end Rsbdd.C18
